@@ -333,16 +333,21 @@ func opText(it *item) string {
 func (pl *plan) render(mode int) string {
 	var sb strings.Builder
 	sb.WriteString("define void @" + pl.fname + "(")
+	allExplicit := true
 	for i, p := range pl.params {
 		if i > 0 {
 			sb.WriteString(", ")
 		}
 		sb.WriteString("i32")
-		// LLVM 14 checks an explicit parameter number against the parameter's *index*
-		// ("argument expected to be numbered '%<index>'") although the body numbers it by
-		// the count of unnamed values: after a named parameter no explicit form exists.
-		if p.name != "" || (explicitIn(mode, p) && p.num == i) {
+		// LLVM 14 counts only the explicitly numbered parameters when it checks an explicit
+		// parameter number ("i32, i32 %1" is rejected, "i32 %0, i32" accepted): an unnamed
+		// parameter can be written with its number only if all unnamed ones before it are.
+		if p.name != "" {
 			sb.WriteString(" " + p.ident())
+		} else if allExplicit && (mode == modeExplicit || (mode == modeMixed && p.num == 0)) {
+			sb.WriteString(" " + p.ident())
+		} else {
+			allExplicit = false
 		}
 	}
 	sb.WriteString(") personality i32 (...)* @__gxx_personality_v0 {\n")
